@@ -149,10 +149,15 @@ def run(rep):
         wbx = {"sheets": [{"name": "survey", "header": ["type", "name", "label"], "rows": [["text", "q1", "Q1"]]},
                           {"name": "settings", "header": hdr, "rows": [["the_form_id", "T"] + [f"custom_{i}" for i in range(len(cols))]]}]}
         jobs.append({"wb": wbx, "fmt": "dict", "parts": ("c01",), "tag": {"settings_attribute_collision": cols}})
+    # the workbooks the repository's own test-suite converts (frozen input corpus)
+    from harness import suitecorpus
+
+    sj = suitecorpus.doc_jobs(("c01",))
+    jobs += sj
     outs = conv.map_cases(_xml.run_doc, jobs, chunksize=8)
     nf = 2500 if rep.tier == "quick" else 40000
     outs += [o for o in conv.map_cases(_fuzz_doc, [{"seed": rep.seed, "idx": i} for i in range(nf)], chunksize=32)]
-    rep.bounds["forms"] = {"hostile": len(strs), "decorated_structures": len(picked), "name_matrix": len(NAME_CHANNELS) * len(NAME_TOKENS), "illegal_char_matrix": len(TEXT_CHANNELS) * len(TEXT_TOKENS), "fuzz": nf}
+    rep.bounds["forms"] = {"hostile": len(strs), "decorated_structures": len(picked), "name_matrix": len(NAME_CHANNELS) * len(NAME_TOKENS), "illegal_char_matrix": len(TEXT_CHANNELS) * len(TEXT_TOKENS), "fuzz": nf, "suite_corpus": len(sj)}
     sub, acc, rejected = _xml.validate_docs(rep, PROP, outs, "all form families, compact and pretty")
     for o, clause in rejected:
         tag = o["job"].get("tag") or {}
@@ -194,7 +199,7 @@ def replay(rep, case):
         if 0 not in acc:
             rep.violation(f"{PROP}:{info['progress'].get(0, (0, '?'))[1]}", "writer replay", c)
         return
-    o = _xml.run_doc({"wb": c["wb"], "fmt": c.get("fmt", "dict"), "parts": ("c01",), "tag": (c.get("job") or {}).get("tag")})
+    o = _xml.run_doc({"wb": c["wb"], "fmt": c.get("fmt", "dict"), "parts": ("c01",), "tag": (c.get("job") or {}).get("tag"), "kwargs": (c.get("job") or {}).get("kwargs")})
     sub, acc, rejected = _xml.validate_docs(rep, PROP, [o], "replay")
     for o, clause in rejected:
         rep.violation(f"{PROP}:{clause}", f"clause {clause}", c)
